@@ -80,3 +80,18 @@ package core
 //@   ensures true
 //@   modifies nothing
 //@   trusted reflect-based accessors pending
+
+// element / key coercion for containers (C03): within a numeric class the value is converted to the target kind
+// (fit / ffit: cut to the target's width, as a Go conversion does); a value of the target's kind is passed unchanged
+//@ func GetWantedValue
+//@   props C03
+//@   arith bv
+//@   requires toKind != nil
+//@   ensures [C03] noerror: result.1 == nil
+//@   ensures [C03] samekind: rv_kind(newValue) == rt_kind(toKind) ==> result.0 == newValue
+//@   ensures [C03] integers: rv_kind(newValue) != rt_kind(toKind) && ncls(rv_kind(newValue)) == 1 && 2 <= rt_kind(toKind) && rt_kind(toKind) <= 6 ==> rv_kind(result.0) == rt_kind(toKind) && rv_bits(result.0) == fitS(rv_bits(newValue), rt_kind(toKind))
+//@   ensures [C03] unsigneds: rv_kind(newValue) != rt_kind(toKind) && ncls(rv_kind(newValue)) == 2 && 7 <= rt_kind(toKind) && rt_kind(toKind) <= 11 ==> rv_kind(result.0) == rt_kind(toKind) && rv_bits(result.0) == fitU(rv_bits(newValue), rt_kind(toKind))
+//@   ensures [C03] floats: rv_kind(newValue) != rt_kind(toKind) && ncls(rv_kind(newValue)) == 3 && ncls(rt_kind(toKind)) == 3 ==> rv_kind(result.0) == rt_kind(toKind) && fsame(rv_f64(result.0), ffit(rv_f64(newValue), rt_kind(toKind)))
+//@   ensures [C03] other: ncls(rt_kind(toKind)) == 0 || rt_kind(toKind) == 12 ==> result.0 == newValue
+//@   modifies nothing
+
